@@ -40,10 +40,31 @@ def seeded_table():
     return "\n".join(rows)
 
 
+def subchecks_table():
+    import sys
+    sys.path.insert(0, HERE)
+    os.environ.setdefault("IRISPIE_SRC", "/repo/src")
+    from vlib import runner
+    rows = ["| property | sub-check | kind | quick budget | thorough budget |", "|---|---|---|---|---|"]
+    for prop in sorted(runner.CHECK_MODULES):
+        try:
+            mod = runner.load_module(prop)
+        except Exception as exc:  # noqa: BLE001
+            rows.append(f"| {prop} | (module not loadable: {type(exc).__name__}) | | | |")
+            continue
+        for sub in mod.SUBCHECKS:
+            if sub.kind == "hyp":
+                rows.append(f"| {prop} | {sub.name} | Hypothesis cases | {sub.budget['quick']} | {sub.budget['thorough']} |")
+            else:
+                rows.append(f"| {prop} | {sub.name} | enumeration ({'exhaustive' if sub.exhaustive else 'sampled'}) | "
+                            f"{len(sub.chunks('quick'))} chunks | {len(sub.chunks('thorough'))} chunks |")
+    return "\n".join(rows)
+
+
 def main():
     path = os.path.join(HERE, "DESIGN.md")
     s = open(path).read()
-    for name, fn in (("FIXES", fixes_table), ("MUTANTS", mutants_table), ("SEEDED", seeded_table)):
+    for name, fn in (("FIXES", fixes_table), ("MUTANTS", mutants_table), ("SEEDED", seeded_table), ("SUBCHECKS", subchecks_table)):
         pat = re.compile(rf"(<!-- BEGIN {name} -->\n)(.*?)(<!-- END {name} -->)", re.S)
         if pat.search(s):
             s = pat.sub(lambda m: m.group(1) + fn() + "\n" + m.group(3), s)
